@@ -565,9 +565,29 @@ fn judge_execution(p: &Program, results: &[Option<Vec<u64>>], expect: &HashMap<P
 
 pub fn run(ctx: &Ctx) -> Collector {
     let col = Collector::new("C14", "model_checking");
-    col.set_rule("(a) E2 builder histories: for 3 inputs (numeric, alphanumeric, bytes) ALL sequences of exactly depth D (quick 4, thorough 5; every shorter history is a prefix) over {mode(each the input allows), ecl(L|H), version(1|2|7), mask(all 8), build, other1, other2} replayed on a fresh real QRBuilder; model state = option tuple; oracle at every build step: digest of (all 177x177 module bytes, size, four fields, or error kind) = digest computed by a fresh builder with the model tuple in a PRISTINE child process (one process per tuple); unrelated builds interleaved must equal their pristine values too. (b) E2 renderer histories: all sequences to depth 4 over {6 SvgBuilder setters, svg(q1|q2), term(q1|q2)} and to depth 3 (thorough 4) over {5 ImageBuilder setters, png(q1|q2)}: every render = render of a fresh renderer built from the model state, the QRCode digest is unchanged after every render, and all distinct (state, symbol) renders are recomputed in reverse order in a fresh child process. (c) E3 schedules: 6 thread programs (2-3 real threads, 1-2 operations each, incl. two threads sharing one &QRBuilder) under the controlled scheduler at the guarded scheduling points: all interleavings with <= b preemptions (iterative bounding; fine point set and coarse point set, bounds in the evidence); oracle: every thread's result = its sequential pristine result; vacuity guard: racy canary outcomes. Supplementary (sampling, not part of the verdict basis): free-running 16-thread pass. non-trivial = a build or render was observed; distinct = distinct observation digests");
-    col.assume("E3 preempts only at the guarded scheduling points (hook H3): a shared buffer whose write->read window lies inside one loop iteration is not split; memory-ordering effects are out of scope (the crate has no atomics)");
+    col.set_rule("(a) E2 builder histories: for 3 inputs (numeric, alphanumeric, bytes) ALL sequences of exactly depth D (quick 4, thorough 5; every shorter history is a prefix) over {mode(each the input allows), ecl(L|H), version(1|2|7), mask(all 8), build, other1, other2} replayed on a fresh real QRBuilder; model state = option tuple; oracle at every build step: digest of (all 177x177 module bytes, size, four fields, or error kind) = digest computed by a fresh builder with the model tuple in a PRISTINE child process (one process per tuple); unrelated builds interleaved must equal their pristine values too. (b) E2 renderer histories: all sequences to depth 4 over {6 SvgBuilder setters, svg(q1|q2), term(q1|q2)} and to depth 3 (thorough 4) over {5 ImageBuilder setters, png(q1|q2)}: every render = render of a fresh renderer built from the model state, the QRCode digest is unchanged after every render, and all distinct (state, symbol) renders are recomputed in reverse order in a fresh child process. (c) E3 schedules: 6 thread programs (2-3 real threads, 1-2 operations each, incl. two threads sharing one &QRBuilder) under the controlled scheduler at the guarded scheduling points: all interleavings with <= b preemptions (iterative bounding; fine point set and coarse point set, bounds in the evidence); oracle: every thread's result = its sequential pristine result; vacuity guard: racy canary outcomes. (d) E3-fine: the same scheduler driven by function-entry events of a second build of fast_qr (opt-level 0, -Zinstrument-mcount, nightly): 5 (thorough 8) thread programs incl. terminal and SVG renders of two sizes in opposite orders; all interleavings with <= 1 preemption at the first k (quick 1, thorough 3) entries of every (function, call site) pair per operation; expectations from fresh single-threaded processes. Supplementary (sampling, not part of the verdict basis): free-running 16-thread pass. non-trivial = a build or render was observed; distinct = distinct observation digests");
+    col.assume("E3 (c) preempts at the guarded scheduling points (hook H3), E3-fine (d) at function entries inside the crate (first k per function and call site): a window that contains no call at all is not split; memory-ordering effects weaker than sequential consistency are out of scope (the crate has no atomics)");
     let thorough = ctx.tier.thorough();
+
+    // ---- (d) runs in child processes of its own binary (nightly build, function-entry instrumentation); started
+    // now, joined after (c)
+    let fine_bin = format!("{}/target-fine/release/fqv-fine", ctx.verif_dir);
+    let fine_handle = {
+        let fine_bin = fine_bin.clone();
+        std::thread::spawn(move || -> Result<Value, String> {
+            if std::env::var("FQV_NO_FINE").is_ok() {
+                return Err("disabled by FQV_NO_FINE".into());
+            }
+            if !std::path::Path::new(&fine_bin).exists() {
+                return Err(format!("{} is not built (nightly toolchain build failed or was skipped; see ./check output)", fine_bin));
+            }
+            let out = std::process::Command::new(&fine_bin).args(["explore", if thorough { "thorough" } else { "quick" }]).output().map_err(|e| e.to_string())?;
+            if !out.status.success() {
+                return Err(format!("fqv-fine explore exited with {:?}: {}", out.status, String::from_utf8_lossy(&out.stderr).chars().take(400).collect::<String>()));
+            }
+            serde_json::from_slice::<Value>(&out.stdout).map_err(|e| format!("fqv-fine explore printed no JSON: {}", e))
+        })
+    };
 
     // ---- assumption check: source scan
     let scan = source_scan();
@@ -822,6 +842,8 @@ pub fn run(ctx: &Ctx) -> Collector {
         }
     };
     let sched_total = AtomicU64::new(0);
+    #[allow(unused_assignments)]
+    let mut fine_total = 0u64;
     let sched_info: Mutex<Vec<Value>> = Mutex::new(vec![]);
     let cap: u64 = if thorough { 400_000 } else { 30_000 };
     // jobs: (program, fine?)
@@ -892,6 +914,52 @@ pub fn run(ctx: &Ctx) -> Collector {
     col.space(json!({"name": "(c) schedules", "cases": st, "what": "all interleavings of the thread programs at the guarded scheduling points up to the preemption bounds listed under schedule_programs", "exhaustive": true, "wall_s": (t2.elapsed().as_secs_f64() * 100.0).round() / 100.0}));
     col.sample(json!({"kind": "schedule", "program_index": 0, "points": "coarse", "choices": [0, 0, 1, 0]}));
 
+    // ---- (d) schedules at function-entry granularity
+    match fine_handle.join().unwrap_or_else(|_| Err("fine exploration thread panicked".into())) {
+        Ok(rep) => {
+            let mut n = 0u64;
+            let mut one_canary = true;
+            for p in rep["programs"].as_array().into_iter().flatten() {
+                n += p["schedules"].as_u64().unwrap_or(0);
+                if p["distinct_canary_outcomes"].as_u64().unwrap_or(0) > 1 {
+                    one_canary = false;
+                }
+                col.digest(crate::util::fnv(p.to_string().as_bytes()));
+            }
+            for v in rep["violations"].as_array().into_iter().flatten() {
+                let key = v["key"].as_str().unwrap_or("C14/schedule-dependent-result").to_string();
+                for _ in 0..v["cases"].as_u64().unwrap_or(1).min(50) {
+                    col.violation((25, 0), key.clone(), format!("(function-entry granularity) {}", v["what"].as_str().unwrap_or("")), v["case"].clone());
+                }
+            }
+            let viol = rep["violations"].as_array().map_or(0, |a| a.len());
+            for m in rep["machinery"].as_array().into_iter().flatten() {
+                // with a violation on the table these are consequences of the same defect (the sequence of function
+                // entries depends on hidden state); without one they are a machinery problem
+                if viol == 0 {
+                    col.machinery_error(format!("(d) {}", m.as_str().unwrap_or("")));
+                }
+            }
+            for c in rep["cuts"].as_array().into_iter().flatten() {
+                col.cap_hit(&format!("(d) {}", c.as_str().unwrap_or("")));
+            }
+            if n > 0 && one_canary {
+                col.machinery_error("E3-fine vacuity guard: the racy canary showed a single outcome in every program".into());
+            }
+            col.evals_add(n);
+            col.set("schedules", json!(st + n));
+            col.set("fine_schedule_programs", rep["programs"].clone());
+            col.space(json!({"name": "(d) schedules at function-entry granularity", "cases": n, "k": rep["k"], "preemption_bound": rep["preemption_bound"], "what": "all interleavings with <= 1 preemption at candidate points = the first k entries of every (function, call site) pair in every operation, fast_qr compiled at opt-level 0 with -Zinstrument-mcount (every function entered inside the crate, including std generics and inline std functions such as Mutex::lock / Atomic*::load instantiated there); programs under fine_schedule_programs", "exhaustive": true, "wall_s": rep["wall_s"]}));
+            col.sample(json!({"kind": "schedule-fine", "program": 0, "k": 1, "choices": [[0, 700], [1, 1]]}));
+            fine_total = n;
+        }
+        Err(e) => {
+            eprintln!("NOTE: C14 (d) fine-grained schedule exploration did not run: {}", e);
+            col.cap_hit(&format!("(d) function-entry-granularity schedule exploration did not run: {}", e));
+            col.assume("WEAKENED: sub-exploration (d) did not run; schedules are covered at the guarded scheduling points only");
+        }
+    }
+
     // ---- supplementary free-running pass (SAMPLING of OS schedules; labelled; it cannot justify "holds",
     // but a mismatch it finds is a real violation). 16 threads start on a barrier and build symbols of four
     // different versions in thread-specific orders for a fixed time; every result is compared with its
@@ -948,6 +1016,6 @@ pub fn run(ctx: &Ctx) -> Collector {
     let total_states = n_states_a + n_states_b;
     col.set("states", json!(total_states));
     col.set("transitions", json!(transitions.load(Ordering::Relaxed) + rtrans.load(Ordering::Relaxed)));
-    col.set("traces_validated_against_impl", json!(nseq + rcount as u64 + icount as u64 + st));
+    col.set("traces_validated_against_impl", json!(nseq + rcount as u64 + icount as u64 + st + fine_total));
     col
 }
